@@ -3,10 +3,53 @@ from . import tlc, tlaval, cases
 from .core import MachineryError
 
 
+MAX_CHUNK_BYTES = 300 * 1024 * 1024
+
+
+def split_trace(trace_file, max_bytes=None):
+    """[(path, number of lines)]: the trace itself, or consecutive chunks of at most max_bytes (the JSON module reads a
+    whole file into memory; very large thorough-tier traces are judged chunk by chunk)"""
+    import os
+    max_bytes = max_bytes or MAX_CHUNK_BYTES
+    size = os.path.getsize(trace_file)
+    if size <= max_bytes:
+        return None
+    out = []
+    k, cur, nbytes, nlines = 0, None, 0, 0
+    with open(trace_file) as f:
+        for line in f:
+            if cur is None or nbytes + len(line) > max_bytes:
+                if cur is not None:
+                    cur.close()
+                    out.append((path, nlines))
+                k += 1
+                path = "%s.chunk%d" % (trace_file, k)
+                cur = open(path, "w")
+                nbytes, nlines = 0, 0
+            cur.write(line)
+            nbytes += len(line)
+            nlines += 1
+    if cur is not None:
+        cur.close()
+        out.append((path, nlines))
+    return out
+
+
 def judge(rep, name, spec, cfg, trace_file, n_expected, sig_of=None, workers=2, timeout=3600, env=None,
           heap="6g"):
     """Runs TLC on `spec` with TRACE_FILE=trace_file. The spec prints <<"REJECT", i, clauses>> for every
     rejected record and must visit exactly n_expected states. Returns number of rejects."""
+    chunks = split_trace(trace_file)
+    if chunks:
+        import os
+        if sum(n for _, n in chunks) != n_expected:
+            raise MachineryError("%s: trace has %d records, expected %d" % (name, sum(n for _, n in chunks), n_expected))
+        tot = 0
+        for k, (path, n) in enumerate(chunks, 1):
+            tot += judge(rep, "%s[chunk %d/%d]" % (name, k, len(chunks)), spec, cfg, path, n, sig_of=sig_of, workers=workers,
+                         timeout=timeout, env=env, heap=heap)
+            os.unlink(path)
+        return tot
     e = {"TRACE_FILE": trace_file}
     if env:
         e.update(env)
